@@ -1,6 +1,7 @@
 """Contracts for someip.service (method-call handling)."""
 import someip.header as H
 import someip.service as S
+from contracts.common import check_frame
 from contracts import spec_header as SH
 
 E = H.SOMEIPReturnCode
@@ -60,7 +61,9 @@ def ob_send_error_response_refines(vc):
     addr = vc.opaque("addr", "addr")
     rc = SH.gen_enum(vc, "rc", H.SOMEIPReturnCode, SH.RETURN_CODES)
     n0 = len(sent_a)
+    heap = vc.snapshot(svc=a)
     o1 = vc.outcome(vc.body(S.SimpleService.send_error_response), a, msg, addr, rc)
+    check_frame(vc, heap, "send_error_response", ())
     got = sent_a[n0:]
     n1 = len(sent_a)
     o2 = vc.outcome(send_error_response, a, msg, addr, rc)
@@ -74,7 +77,9 @@ def ob_send_positive_response_refines(vc):
     addr = vc.opaque("addr", "addr")
     payload = vc.bytes("payload")
     vc.assume(len(payload) + 8 <= 0xFFFFFFFF)
+    heap = vc.snapshot(svc=a)
     o1 = vc.outcome(vc.body(S.SimpleService.send_positive_response), a, msg, addr, payload)
+    check_frame(vc, heap, "send_positive_response", ())
     got = sent_a[0:]
     n1 = len(sent_a)
     o2 = vc.outcome(send_positive_response, a, msg, addr, payload)
